@@ -1,3 +1,4 @@
+import Desert.Lemmas.RoundTripFull
 import Desert.Lemmas.Misc
 /-!
 # C08 — truncated data is always detected
@@ -16,14 +17,14 @@ theorem run_extends_any {α : Type} (p : DProg α) (b t : Bytes) (a : α) (s' : 
   run_extends_top p b t a s' h
 
 /-- every strict prefix of a valid encoding is rejected: it never decodes to a value
-(headerless declarations; same decoder budget on both sides) -/
-theorem prefix_rejected (env : Env) (henv : EnvV0 env) (ty : Ty) (v : Val) (b : Bytes) (st' : EncSt) (fuel : Nat)
+(any well-formed declarations; same decoder budget on both sides) -/
+theorem prefix_rejected (env : Env) (henv : EnvWF env) (ty : Ty) (v : Val) (b : Bytes) (st' : EncSt) (fuel : Nat)
     (he : enc env ty v [] = .ok (b, st')) (hu : v.utf8OK) (hd : v.depth < fuel) (k : Nat) (hk : k < b.length) :
     ∀ a s', runAbs (dec env fuel ty) (AbsSrc.new (b.take k)) ≠ .ok (a, s') := by
   intro a s' hok
   have hext := run_extends_top (dec env fuel ty) (b.take k) (b.drop k) a s' hok
   rw [List.take_append_drop] at hext
-  have hrt := ((rt_all env henv v).1 ty [] b st' fuel he hu (by simp [StOK]) hd (AbsSrc.new b) []
+  have hrt := ((rt_wf env henv v).1 ty [] b st' fuel he hu (by simp [StOK]) hd (AbsSrc.new b) []
     (WF_new _) (by simp [view_new]) rfl).1
   rw [hrt] at hext
   have hwf := run_AllWF (dec env fuel ty) _ a s' (AllWF_new _) hok
@@ -49,7 +50,7 @@ theorem prefix_rejected (env : Env) (henv : EnvV0 env) (ty : Ty) (v : Val) (b : 
     cases ws <;> simp [extStack] at this
 
 /-- in particular the empty input is rejected whenever the encoding is non-empty -/
-theorem empty_rejected (env : Env) (henv : EnvV0 env) (ty : Ty) (v : Val) (b : Bytes) (st' : EncSt) (fuel : Nat)
+theorem empty_rejected (env : Env) (henv : EnvWF env) (ty : Ty) (v : Val) (b : Bytes) (st' : EncSt) (fuel : Nat)
     (he : enc env ty v [] = .ok (b, st')) (hu : v.utf8OK) (hd : v.depth < fuel) (hb : 0 < b.length) :
     ∀ a s', runAbs (dec env fuel ty) (AbsSrc.new []) ≠ .ok (a, s') := by
   have := prefix_rejected env henv ty v b st' fuel he hu hd 0 hb
